@@ -272,10 +272,20 @@ Lemma refuted_literal :
     RuntimeLaws rt /\ encodable s = true /\ forallb no_bin_value vals = true /\
     entry rt rest whole sup (HLiteral vals) (PStr s) = Ok (PStr s) /\
     entry rt rest whole sup (HLiteral vals) (carrier rt CBytes s) = Raise EValue /\
+    entry_pinned rt rest whole sup (HLiteral vals) (PStr s) = Ok (PStr s) /\
     entry_pinned rt rest whole sup (HLiteral vals) (carrier rt CBytes s) = Raise EValue.
 Proof.
   exists toy_rt, toy_rest, toy_whole, union_suppressed_pinned, [PStr t_one], t_one.
   split; [exact toy_laws|]. vm_compute. repeat split; reflexivity.
+Qed.
+
+Lemma full_refuted : ~ C14_full true /\ ~ C14_full false.
+Proof.
+  destruct refuted_literal as (rt & rest & whole & sup & vals & s & L & He & _ & H1 & H2 & H3 & H4).
+  unfold entry in H1, H2. unfold entry_pinned in H3, H4.
+  split; intros F; specialize (F rt L rest whole sup (HLiteral vals) CBytes s eq_refl He).
+  - rewrite H1, H2 in F. discriminate F.
+  - rewrite H3, H4 in F. discriminate F.
 Qed.
 
 (* the pinned strload lets MemoryError / RecursionError of literal_eval escape *)
